@@ -89,7 +89,8 @@ fn app_case(tier: Tier) -> BoxedStrategy<AppCase> {
                     let h = kh + raw[3] as usize % (2 * (n as f64).sqrt() as usize + 3); let w = kw + raw[4] as usize % ((n as f64).sqrt() as usize + 3);
                     vec![1 + raw[0] as usize % 3, 1 + raw[1] as usize % 4, 1 + raw[2] as usize % 4, h, w, kh, kw]
                 }
-                _ => { let cap = |r: u16, m: usize| 1 + r as usize % m; let lim = match method { Method::BoltCcCr | Method::BoltCcDc => (n / 2).min(24), Method::BoltCp => n.min(40), _ => (2 * n).min(70) };
+                _ => { let cap = |r: u16, m: usize| 1 + r as usize % m; // the slot-packing helpers tile dimensions above N/2: at small N the limit is above N/2 so that several tiles are needed along one or both tiled dimensions
+                    let lim = match method { Method::BoltCcCr | Method::BoltCcDc => if n <= 32 { (3 * n / 2).min(24) } else { (n / 2).min(24) }, Method::BoltCp => n.min(40), _ => (2 * n).min(70) };
                     vec![cap(raw[0], lim), cap(raw[1], lim), cap(raw[2], lim)] }
             };
             AppCase { method, logn, dims, objective, pack, transport, bias, t_pow2, seed, entropy }
@@ -205,6 +206,7 @@ fn oracle(c: &AppCase) -> Verdict {
             match res { Err(p) => return fail_key(key, format!("{:?} pipeline panicked for an accepted shape {:?} (N={n}): {p}", c.method, d)), Ok(None) => return Verdict::Pass(info.label("shape not accepted by the constructor")),
                 Ok(Some((got, rt))) => { if let Some(v) = cmp(&got, &want, &format!("{:?}", c.method)) { return v; } if let Some(v) = cmp(&rt, &want, "decode_outputs(encode_outputs(y))") { return v; } } }
             info.nontrivial = m * r > n / 2 || r * nn > n / 2 || !m.is_power_of_two() || !r.is_power_of_two();
+            info = info.label_if(m > n / 2 && r > n / 2, "tiled along both dimensions of the left operand").label_if(m > n / 2 || r > n / 2 || nn > n / 2, "some dimension above N/2");
         }
         Method::Conv | Method::ConvReverse => {
             let be = BatchEncoder::new(ctx.clone());
